@@ -227,12 +227,24 @@ example : invert (.bin .mul (.ref 1) (.const 2)) = none ∧
     invert (.bin .add (.ref 1) (.ref 2)) = none ∧ invert (.bin .sub (.ref 1) (.ref 1)) = none := by
   decide
 
-/-- **Transform write**: with the `function_body` produced by `_invert_expression`, a
-successful `TryToWrite(v)` of the generated virtual-field write method leaves in the
-destination the value for which the virtual field reads back `v`; that value was accepted by
-the destination's own `CouldWriteValue` (C03_could_write_iff_representable_*); a failed
-write leaves the destination unchanged. -/
-theorem C03_transform_write (rt body : Expr) (x : Nat) (hinv : invert rt = some (.ref x, body))
+/-
+Full statement (false on the real generated code, see finding
+`virtual-write-inverse-wraps-in-unsigned-destination-type`): the same with `eval` replaced by
+what the generated C++ computes.  The C++ evaluates `function_body` in a fixed-width type
+inferred from the *assumed* bounds of `$logical_value` (the virtual field's own value range);
+for a candidate value outside that range the unsigned arithmetic wraps and a 32-bit `UInt`
+destination accepts the wrapped value: `let v = f0 + 1` over `0 [+4] UInt f0`,
+`v().TryToWrite(0)` succeeds, stores 0xFFFFFFFF and `v` reads 2^32.
+-/
+/-- **Transform write**, partial: *when the inverse `function_body` is evaluated exactly (over
+ℤ, as `eval` does — true of the generated C++ whenever the candidate value lies in the virtual
+field's own value range, so that no intermediate wraps)*, a successful `TryToWrite(v)` of the
+generated virtual-field write method leaves in the destination the value for which the
+virtual field reads back `v`; that value was accepted by the destination's own
+`CouldWriteValue` (C03_could_write_iff_representable_*); a failed write leaves the
+destination unchanged.  Missing: the fixed-width evaluation of the inverse in the generated
+code (open finding above; the signed variant is undefined behaviour and belongs to C04/F3). -/
+theorem C03_transform_write_partial (rt body : Expr) (x : Nat) (hinv : invert rt = some (.ref x, body))
     (valueIsOk : Int → Bool) (d : Dest) (v : Int) (env : Nat → Int) :
     (∀ d', virtualTryToWrite body valueIsOk d v = (true, d') →
       eval (update env x d'.value) v rt = some v ∧ d.could d'.value = true ∧
